@@ -699,9 +699,80 @@ func Run(c *lib.Ctx) {
 		}
 		run(pool, rr)
 	}
+	fails = append(fails, mutatedInPlace(c, r.Fork())...)
 	ms, err := c.RunModel("c14", sc)
 	if err != nil {
 		ms = append(ms, lib.Mismatch{Op: "(model driver failed)", Model: err.Error()})
 	}
 	c.Conclude("types.Equal/Compare/HashOf ≈ Uniflow.Value.equal/cmp/hash", ms, fails)
+}
+
+// mutatedInPlace: the laws on a value that has been OBSERVED and then changed in place. A mutable map is hashed,
+// compared and used as an element, then Set / Delete / Clear change it, and after every change it must obey the
+// laws against a FRESH map with the same pairs: Equal both ways, Compare 0 both ways, equal hashes – alone and as
+// an element of a slice and as a value of a map. (Seeded change c14i: mutableMap.Hash memoised, the memo reset
+// at every bucket store but not where Delete removes a bucket: Equal values with different hashes, Equal not
+// symmetric.) The pool rounds above never change a value after it was hashed.
+func mutatedInPlace(c *lib.Ctx, r *lib.RNG) (fails []lib.OracleFail) {
+	keys := []types.Value{str("a"), str("b"), str("c"), types.NewInt(1), types.NewBinary([]byte("a")), types.NewFloat64(0), types.NewUint8(1)}
+	vals := []types.Value{types.NewInt(1), str("x"), nil, types.NewSlice(types.NewInt(1)), types.True}
+	for round := 0; round < c.Scale(60, 600) && len(fails) < 3; round++ {
+		m := types.NewMapWithSize(0)
+		var trace []string
+		for step := 0; step < r.Range(3, 12) && len(fails) < 3; step++ {
+			if p := lib.Safe(func() {
+				// observe first (what a later change must invalidate)
+				switch r.Intn(4) {
+				case 0:
+					_ = m.Hash()
+					trace = append(trace, "hash")
+				case 1:
+					_ = types.NewSlice(m).Hash()
+					trace = append(trace, "hash-as-element")
+				case 2:
+					_ = types.Equal(types.NewMap(), m)
+					trace = append(trace, "equal-as-argument")
+				}
+				k := lib.Pick(r, keys)
+				switch r.Weighted([]int{5, 4, 1}) {
+				case 0:
+					m.Set(k, lib.Pick(r, vals))
+					trace = append(trace, "set "+lib.EncodeVal(k))
+				case 1:
+					m.Delete(k)
+					trace = append(trace, "delete "+lib.EncodeVal(k))
+				default:
+					m.Clear()
+					trace = append(trace, "clear")
+				}
+			}); p != "" {
+				fails = append(fails, lib.OracleFail{Class: "panic", What: "mutating a hashed map panicked: " + p, Replay: strings.Join(trace, "\n")})
+				return
+			}
+			var pairs []types.Value
+			for k, v := range m.Range() {
+				pairs = append(pairs, k, v)
+			}
+			fresh := types.NewMap(pairs...)
+			c.Evaluations++
+			bad := func(what string) {
+				c.Hit("oracle-fail:equal-hash")
+				fails = append(fails, lib.OracleFail{Class: "equal-hash", What: fmt.Sprintf("a map changed in place after it had been observed, against a fresh map with the same pairs [%s]: %s", lib.EncodeVal(fresh), what), Replay: strings.Join(trace, "\n")})
+			}
+			switch {
+			case !types.Equal(m, fresh) || !types.Equal(fresh, m):
+				bad(fmt.Sprintf("Equal(m,fresh)=%v Equal(fresh,m)=%v", types.Equal(m, fresh), types.Equal(fresh, m)))
+			case types.Compare(m, fresh) != 0 || types.Compare(fresh, m) != 0:
+				bad(fmt.Sprintf("Compare = %d / %d", types.Compare(m, fresh), types.Compare(fresh, m)))
+			case types.HashOf(m) != types.HashOf(fresh):
+				bad(fmt.Sprintf("Equal but Hash %d != %d", types.HashOf(m), types.HashOf(fresh)))
+			case types.HashOf(types.NewSlice(m)) != types.HashOf(types.NewSlice(fresh)) || !types.Equal(types.NewSlice(fresh), types.NewSlice(m)):
+				bad("as the element of a slice: hashes or Equal differ")
+			case types.NewMap(str("k"), m).Hash() != types.NewMap(str("k"), fresh).Hash():
+				bad("as the value of a map: hashes differ")
+			}
+		}
+		c.Hit("oracle-mutated-in-place")
+	}
+	return fails
 }
